@@ -35,7 +35,7 @@ let parse_node ctx s : node =
   | _ -> failwith ("node " ^ s)
 let parse_nodes ctx s = if s = "-" then [] else List.map (parse_node ctx) (split ',' s)
 let parse_picks s = List.map (fun p -> nat_of_int (int_of_string p)) (split ',' s)
-let parse_op ctx (s : string) : op =
+let parse_plain ctx (s : string) : op =
   let f = String.split_on_char ':' s in
   match s.[0], f with
   | 'I', _ -> SetInit
@@ -48,11 +48,24 @@ let parse_op ctx (s : string) : op =
     RevalResp (id_of ctx i, r = "1", (if nd = "-" then None else Some (parse_node ctx nd)), nat_of_int (int_of_string p))
   | 'T', [_; nd; ok; nds; p] -> Track (parse_node ctx nd, ok = "1", parse_nodes ctx nds, nat_of_int (int_of_string p))
   | _ -> failwith ("op " ^ s)
+(* P:idx:<pingok>:<pingseq>:<enr record or - (request failed)>:pick  = the remote node's behaviour for doRevalidate *)
+let parse_op ctx (s : string) : xop =
+  if s.[0] = 'P' then
+    match String.split_on_char ':' s with
+    | [_; i; ok; sq; enr; p] ->
+      RevalPing (id_of ctx i, ok = "1", n_of_int (int_of_string sq), (if enr = "-" then None else Some (parse_node ctx enr)),
+                 nat_of_int (int_of_string p))
+    | _ -> failwith ("op " ^ s)
+  else Plain (parse_plain ctx s)
 
 (* ---- printing a model table as components *)
 let str_entry ctx (e : entry) =
   Printf.sprintf "%s.%d.%s.%d.%d.%s.%s" (ix ctx e.nd.nid) (int_of_n e.nd.nseq) (string_of_ip e.nd.nip) (int_of_n e.nd.nport)
     (int_of_n e.checks) (b01 e.live) (match e.rl with Some Fast -> "f" | Some Slow -> "s" | None -> "-")
+let str_node ctx (nd : node) =
+  Printf.sprintf "%s.%d.%s.%d" (ix ctx nd.nid) (int_of_n nd.nseq) (string_of_ip nd.nip) (int_of_n nd.nport)
+let str_outcome ctx ((r, nr) : bool * node option) =
+  b01 r ^ "/" ^ (match nr with None -> "-" | Some nd -> str_node ctx nd)
 let str_entries ctx l = String.concat "," (List.map (str_entry ctx) l)
 let str_ipset (s : ipset) =
   let l = List.map (fun (k, c) -> (int_of_n k, int_of_n c)) s in
@@ -63,13 +76,15 @@ let str_ids ctx l = String.concat "," (List.map (ix ctx) l)
 let comp_keys with_lists =
   List.init 17 (fun j -> "b" ^ string_of_int j) @ ["t"] @ (if with_lists then ["f"; "s"; "a"; "x"] else []) @ ["n"]
 
-let components ctx (t : table) : (string * string) list =
+let components ctx (x : xtable) : (string * string) list =
+  let t = x.core in
+  let sq id = match start_seq x.started id with Some v -> int_of_n v | None -> 0 in
   let bs = List.mapi (fun j b -> ("b" ^ string_of_int j, str_entries ctx b.ents ^ "~" ^ str_entries ctx b.reps ^ "~" ^ str_ipset b.bips)) t.bks in
-  let act = List.sort compare (List.map (fun (id, att) -> (ixi ctx id, att)) t.gl.active) in
+  let act = List.sort compare (List.map (fun (id, att) -> (ixi ctx id, att, sq id)) t.gl.active) in
   let fl = List.filter (fun (_, v) -> int_of_n v <> 0) t.fails in
   let fl = List.sort compare (List.map (fun ((id, ip), v) -> (ixi ctx id, string_of_ip ip, int_of_n v)) fl) in
   bs @ [ ("t", str_ipset t.gl.tips); ("f", str_ids ctx t.gl.fast); ("s", str_ids ctx t.gl.slow);
-         ("a", String.concat "," (List.map (fun (i, att) -> Printf.sprintf "%d.%s" i (b01 att)) act));
+         ("a", String.concat "," (List.map (fun (i, att, q) -> Printf.sprintf "%d.%s.%d" i (b01 att) q) act));
          ("x", String.concat "," (List.map (fun (i, ip, v) -> Printf.sprintf "%d.%s.%d" i ip v) fl));
          ("n", b01 t.initd) ]
 
@@ -85,21 +100,25 @@ let parse_entries ctx s = List.map (parse_entry ctx) (split ',' s)
 let parse_ipset s : ipset =
   List.map (fun kv -> match String.split_on_char '.' kv with
     | [k; c] -> (n_of_hex k, n_of_int (int_of_string c)) | _ -> failwith "ipset") (split ',' s)
-let parse_table ctx (h : (string, string) Hashtbl.t) : table =
+let parse_xtable ctx (h : (string, string) Hashtbl.t) : xtable =
   let get k = match Hashtbl.find_opt h k with Some v -> v | None -> "" in
   let bucket j =
     match String.split_on_char '~' (get ("b" ^ string_of_int j)) with
     | [e; r; p] -> { ents = parse_entries ctx e; reps = parse_entries ctx r; bips = parse_ipset p }
     | _ -> failwith "bucket" in
   let nb = let rec cnt j = if Hashtbl.mem h ("b" ^ string_of_int j) then cnt (j + 1) else j in cnt 0 in
-  let act = List.map (fun s -> match String.split_on_char '.' s with
-    | [i; a] -> (id_of ctx i, a = "1") | _ -> failwith "active") (split ',' (get "a")) in
+  let act3 = List.map (fun s -> match String.split_on_char '.' s with
+    | [i; a; q] -> (id_of ctx i, a = "1", n_of_int (int_of_string q))
+    | [i; a] -> (id_of ctx i, a = "1", n_of_int 0) | _ -> failwith "active") (split ',' (get "a")) in
+  let act = List.map (fun (i, a, _) -> (i, a)) act3 in
   let fl = List.map (fun s -> match String.split_on_char '.' s with
     | [i; ip; v] -> ((id_of ctx i, ip_of_string ip), n_of_int (int_of_string v)) | _ -> failwith "fails") (split ',' (get "x")) in
-  { self = ctx.selfn; bks = List.init nb bucket;
-    gl = { tips = parse_ipset (get "t"); fast = List.map (id_of ctx) (split ',' (get "f"));
-           slow = List.map (id_of ctx) (split ',' (get "s")); active = act };
-    fails = fl; initd = (get "n" = "1") }
+  { core = { self = ctx.selfn; bks = List.init nb bucket;
+             gl = { tips = parse_ipset (get "t"); fast = List.map (id_of ctx) (split ',' (get "f"));
+                    slow = List.map (id_of ctx) (split ',' (get "s")); active = act };
+             fails = fl; initd = (get "n" = "1") };
+    started = List.map (fun (i, _, q) -> (i, q)) act3 }
+let parse_table ctx h : table = (parse_xtable ctx h).core
 
 let apply_delta (h : (string, string) Hashtbl.t) (d : string) =
   List.iter (fun kv ->
@@ -148,6 +167,7 @@ let c18_monitors (timpl : table) (hist : ((n * n) * n) list) (o : op) (t' : tabl
   chk "leaver-not-succeeded" (pol_succ_b t o t') @
   chk "record-downgrade" (pol_record_b t o t') @
   chk "live-after-endpoint-change" (pol_endpoint_b t o t') @
+  chk "credit-lost-after-answered-ping" (pol_credit_b t o t') @
   (* converse of the leave rule (C18_entry_leaves_if), again with the history-derived consecutive count *)
   (if pol_kept_b t o t' then []
    else ["entry-kept-despite-cause " ^ where ^
@@ -179,7 +199,8 @@ let handle ~(c07 : bool) ~(c18 : bool) (fields : string list) (impl : string) : 
     apply_delta h snaps.(0);
     let mons = ref [] in
     let diff = ref None in
-    let model = ref (Some (init ctx.selfn)) in
+    let model = ref (Some (xinit ctx.selfn)) in
+    let model_r = ref "" in
     let compare_step k =
       match !model, !diff with
       | Some m, None ->
@@ -187,27 +208,55 @@ let handle ~(c07 : bool) ~(c18 : bool) (fields : string list) (impl : string) : 
           if !diff = None then begin
             let iv = match Hashtbl.find_opt h key with Some x -> x | None -> "<missing>" in
             if iv <> v then diff := Some (Printf.sprintf "step %d component %s model=%s impl=%s" k key v iv)
-          end) (components ctx m)
+          end) (components ctx m @ [("r", !model_r)])
       | _ -> () in
     compare_step 0;
-    let timpl = ref (parse_table ctx h) in
+    let ximpl = ref (parse_xtable ctx h) in
+    let timpl = ref (!ximpl).core in
     let hist = ref [] in
     if c07 then mons := !mons @ c07_monitors ~full:true !timpl "step=0";
     let nsteps = Array.length snaps - 1 in
     List.iteri (fun k o ->
       if k < nsteps then begin
         apply_delta h snaps.(k + 1);
-        (match !model with Some m -> model := step m o | None -> ());
+        (* what the model's doRevalidate hands to handleResponse *)
+        (match !model, o with
+         | Some m, RevalPing (id, ok, sq, enr, _) ->
+           model_r := (match start_seq m.started id with
+             | Some s0 -> str_outcome ctx (reval_outcome s0 ok sq enr)
+             | None -> "-")
+         | _ -> model_r := "");
+        (match !model with Some m -> model := xstep m o | None -> ());
         if !model = None && !diff = None then diff := Some (Printf.sprintf "step %d model panics, implementation does not" (k + 1));
         compare_step (k + 1);
-        let t' = parse_table ctx h in
+        let x' = parse_xtable ctx h in
+        let t' = x'.core in
         let where = Printf.sprintf "step=%d" (k + 1) in
         if c07 then mons := !mons @ c07_monitors ~full:true t' where;
-        if c18 then mons := !mons @ c18_monitors !timpl !hist o t' where;
-        hist := fails_step !hist o;
+        (* the table operation the step amounts to, with the captured seq taken from the IMPLEMENTATION snapshot and
+           the proved model of doRevalidate (C18_reval_outcome): a ping that was answered is a successful check *)
+        let o' = xresolve !ximpl o in
+        if c18 then begin
+          (match o with
+           | RevalPing (id, ok, sq, enr, _) ->
+             let ri = match Hashtbl.find_opt h "r" with Some v -> v | None -> "" in
+             (match start_seq (!ximpl).started id with
+              | Some s0 when ri <> "-" && ri <> "" ->
+                let (er, enr') = reval_outcome s0 ok sq enr in
+                let did = ri.[0] = '1' in
+                if er && not did then mons := !mons @ [Printf.sprintf "liveness-failure-reported-for-answered-ping %s got=%s" where ri]
+                else if did && not er then mons := !mons @ [Printf.sprintf "liveness-success-reported-for-failed-ping %s got=%s" where ri]
+                else if ri <> str_outcome ctx (er, enr') then
+                  mons := !mons @ [Printf.sprintf "reval-new-record-unexpected %s got=%s want=%s" where ri (str_outcome ctx (er, enr'))]
+              | _ -> ())
+           | _ -> ());
+          mons := !mons @ c18_monitors !timpl !hist o' t' where
+        end;
+        hist := fails_step !hist o';
+        ximpl := x';
         timpl := t'
       end else if k = panic_at then begin
-        (match !model with Some m -> model := step m o | None -> ());
+        (match !model with Some m -> model := xstep m o | None -> ());
         (match !model with
          | None -> ()
          | Some _ -> if !diff = None then diff := Some (Printf.sprintf "step %d implementation panics (%s), model does not" (k + 1) panic_msg));
